@@ -103,7 +103,7 @@ func (P) Exec(line string) string {
 		// (recorded by Generate, or by an earlier run when replaying); the
 		// implementation's side of the comparison is the fact that it was
 		// observed. The Lean model answers "ok" iff some schedule explains it.
-		if len(f) != 11 {
+		if len(f) != 12 {
 			return "bad-op"
 		}
 		return "ok"
